@@ -267,7 +267,12 @@ let check_xd (t : toks) : string =
   | "ERR" -> (match mu with Err _ -> "OK" | _ -> "DIFF unpack_dir model-not-err")
   | "OK" ->
     let sz = next_n t in let d = read_dir t in let rl = next_int t in let amt = next_int t in
+    let slen l = 2 + List.length l in
+    let want = 41 + slen d.d_name + slen d.d_uid + slen d.d_gid + slen d.d_muid + (if dotu then slen d.d_ext + 12 else 0) in
     if amt > blen || rl + amt <> blen then "ORACLE dir_consumed_out_of_range"
+    else if amt <> want then
+      (* what was consumed is not what the decoded fields occupy: some variable-length field was taken from outside the bytes *)
+      Printf.sprintf "ORACLE stat_field_outside_the_record consumed=%d fields_occupy=%d dotu=%b" amt want dotu
     else (match mu with
         | Ok (((sz', d'), rest), amt') ->
           if N.eqb sz sz' && dir_eq d d' && List.length rest = rl && int_of_n amt' = amt then "OK"
